@@ -30,6 +30,67 @@ def hashseed_runs(programs, seeds):
     return out
 
 
+def multi_module_runs(tier: str):
+    """Fixed multi-module scenarios as real subprocesses: every reordering of the listed files' top-level
+    definitions x hash seeds; each function's results must be identical in all runs and equal to the expectation."""
+    import ast
+    import itertools
+    import json
+
+    import multi_scen
+    seeds = [0, 1, 2] if tier == "quick" else list(range(6))
+    jobs, out = [], []
+    with D.Scratch() as root:
+        for name, sc in multi_scen.SCENARIOS.items():
+            variants = [("as written", dict(sc["files"]))]
+            for f in sc["reorder"]:
+                tree = ast.parse(sc["files"][f])
+                heads = [ast.get_source_segment(sc["files"][f], n) for n in tree.body if isinstance(n, (ast.Import, ast.ImportFrom))]
+                defs = [ast.get_source_segment(sc["files"][f], n) for n in tree.body if not isinstance(n, (ast.Import, ast.ImportFrom))]
+                perms = list(itertools.permutations(range(len(defs))))[1:4]
+                for pi, perm in enumerate(perms):
+                    files = dict(sc["files"])
+                    files[f] = "\n".join(heads) + "\n\n" + "\n\n".join(defs[i] for i in perm) + "\n"
+                    variants.append((f"{f} definitions in order {perm}", files))
+                files = dict(sc["files"])
+                files[f] = files[f] + "\n\ndef unrelated_extra(q):\n    return q.unrelated\n"
+                variants.append((f"{f} with an unrelated definition", files))
+            for vi, (label, files) in enumerate(variants):
+                d = root / f"{name}_{vi}"
+                d.mkdir()
+                for fn, src in files.items():
+                    (d / fn).write_text(src)
+                for s in seeds:
+                    jobs.append((name, label, files, d, s))
+        runs = D.pmap(lambda j: D.run_rattr(j[3], ["-w", "none", "-o", "results", "target.py"], hashseed=j[4]), jobs)
+    by = {}
+    for (name, label, files, d, s), r in zip(jobs, runs):
+        try:
+            doc = json.loads(r["stdout"]) if r["exit"] == 0 else None
+        except Exception:  # noqa: BLE001
+            doc = None
+        by.setdefault(name, []).append({"variant": label, "seed": s, "files": files, "exit": r["exit"], "doc": doc, "stderr": r["stderr"][-300:]})
+    for name, rs in by.items():
+        exp = multi_scen.SCENARIOS[name]["expect"]
+        for fn, want in exp.items():
+            seen = {}
+            for r in rs:
+                got = None if r["doc"] is None else r["doc"].get(fn)
+                key = json.dumps(got, sort_keys=True)
+                seen.setdefault(key, r)
+                if got is None or any(got[k] != want[k] for k in ("gets", "sets", "dels")):
+                    out.append({"scenario": name, "function": fn, "why": "results differ from what the program does", "expected": want, "got": got,
+                                "variant": r["variant"], "PYTHONHASHSEED": r["seed"], "files": r["files"], "exit": r["exit"], "stderr": r["stderr"]})
+                    break
+            if len(seen) > 1:
+                a, b = list(seen.values())[:2]
+                out.append({"scenario": name, "function": fn, "why": "results differ between runs (definition order / unrelated definition / hash seed)",
+                            "run_a": {"variant": a["variant"], "PYTHONHASHSEED": a["seed"], "results": None if a["doc"] is None else a["doc"].get(fn)},
+                            "run_b": {"variant": b["variant"], "PYTHONHASHSEED": b["seed"], "results": None if b["doc"] is None else b["doc"].get(fn)},
+                            "files_a": a["files"], "files_b": b["files"]})
+    return out, len(jobs)
+
+
 def main(tier: str) -> int:
     prop = "C05"
     T = C.Timer()
@@ -79,11 +140,14 @@ def main(tier: str) -> int:
     hs_known = [h for h in hs_diff if _same_named_calls_and_recursion(h["source"])]
     hs_new = [h for h in hs_diff if h not in hs_known]
 
+    mm_bad, mm_runs = multi_module_runs(tier)
+    for m in mm_bad[:3]:
+        V.violation({"property": prop, **m})
     for m in new[:4]:
         V.violation({"property": prop, "why": "results differ between definition orders / with unrelated definitions / on a second generation, outside the listed finding class or beyond what the model predicts", **m})
     for h in hs_new[:3]:
         V.violation({"property": prop, "why": "`-o results` bytes differ between PYTHONHASHSEED values", **h})
-    if not new and not hs_new:
+    if not new and not hs_new and not mm_bad:
         if corr_fail:
             V.violation({"property": prop, "broken": "correspondence suite res (model/Results.v vs generate_results_from_ir)",
                          "disagreements": len(corr_fail), "first": corr_fail[0]}, failing_input=False)
@@ -104,9 +168,9 @@ def main(tier: str) -> int:
                 "a second generation in the same process; a sample + the corpus witness as real subprocesses under several PYTHONHASHSEED values; non-trivial = distinct programs",
         "programs": len(res["groups"]), "traces_validated_against_impl": len(res["cases"]), "disagreements_checked": len(corr_fail),
         "order_dependent_programs_known_class": len(known), "order_dependent_programs_new": len(new),
-        "hashseed_programs": len(hs), "hashseed_dependent_known": len(hs_known), "hashseed_dependent_new": len(hs_new),
+        "multi_module_runs": mm_runs, "multi_module_differences": len(mm_bad), "hashseed_programs": len(hs), "hashseed_dependent_known": len(hs_known), "hashseed_dependent_new": len(hs_new),
         "print_assumptions": pa, "broken_obligation_files": broken, "samples": [known[0] if known else {"program": res["groups"][0]["program"]}]},
-        wall_s=T.s, assumptions=["single-file programs"], violations=len(V.violations))
+        wall_s=T.s, assumptions=["single-file programs for the permutation suite; four fixed multi-module scenarios (imported callee called twice, same-named private helpers, ignored imported callee, diamond) under reorderings x hash seeds"], violations=len(V.violations))
     return V.finish()
 
 
